@@ -79,6 +79,12 @@ class Obl:
             if res:
                 return self._mk(UNDECIDED, fn, node, instance,
                                 f"(not accused: `{fn.qualname}` delegates to the new helper(s) {res}, which the rules cannot see through) {reason}")
+            # A function of which less than 40% survives from the pinned tree has been REWRITTEN, not edited: the rules
+            # were written against the pinned algorithm's shape and are not trusted to accuse a different algorithm.
+            sv = self.ctx.prog.survives(fn)
+            if sv < self.ctx.prog.REWRITE_THRESHOLD:
+                return self._mk(UNDECIDED, fn, node, instance,
+                                f"(not accused: only {int(sv * 100)}% of `{fn.qualname}` survives from the pinned tree - rewritten rather than edited; needs review) {reason}")
         return self._mk(VIOLATED, fn, node, instance, reason, key=key, construct=construct)
 
     def undecided(self, reason: str, fn=None, node=None, instance: str = ""):
